@@ -802,6 +802,12 @@ class _EvalBuilder(_Builder):
         i = self.i
         if isinstance(n, ast.Call):
             s = super().ev(n)
+            # functools.partial(f, a, k=v)(b) is f(a, b, k=v)
+            if s[0] == "call" and s[1][0] == "call" and dotted(s[1][1]) in ("partial", "functools.partial") and s[1][2] and not any(k is None or k == "#" for k, _ in s[1][3]):
+                inner = s[1]
+                merged_kw = dict(inner[3])
+                merged_kw.update(dict(s[3]))
+                s = ("call", inner[2][0], tuple(inner[2][1:]) + tuple(s[2]), tuple(sorted(merged_kw.items(), key=lambda kv: str(kv[0]))))
             s = self._fold_call(s)
             if s[0] != "call":
                 return s
